@@ -99,6 +99,17 @@ fn judge(
     None
 }
 
+/// arena slot of a handle (Node's Debug prints `Node(NodeId { index1: N, stamp: NodeStamp(S) })`)
+fn index_of(n: xot::Node) -> u64 {
+    let s = format!("{:?}", n);
+    if let Some(i) = s.find("index1: ") {
+        let rest = &s[i + 8..];
+        let end = rest.find(|c: char| !c.is_ascii_digit()).unwrap_or(rest.len());
+        return rest[..end].parse::<u64>().unwrap_or(u64::MAX);
+    }
+    u64::MAX
+}
+
 fn exec(
     w: &mut World,
     t: &TraceOp,
@@ -118,7 +129,67 @@ fn exec(
             let mut target = xot::Xot::new();
             target.set_text_consolidation(!w.model.cons);
             target.add_name("left-over");
+            let with_history = t.sid % 6 == 3;
+            if with_history {
+                // ... and, every other time, one that has documents of its own in the very arena slots the
+                // source's documents occupy, each with an xml:id index (whatever the overwritten store
+                // knew must be gone afterwards). The hash-seed stream is put back so that the history of
+                // the target costs the run no draws.
+                let hs0 = hashseam::get();
+                let mut docs: Vec<u64> = w
+                    .model
+                    .roots
+                    .iter()
+                    .filter_map(|l| w.handles.get(l))
+                    .filter(|h| !w.xot.is_removed(**h) && w.xot.is_document(**h))
+                    .map(|h| index_of(*h))
+                    .filter(|i| *i <= 400)
+                    .collect();
+                docs.sort();
+                let mut last = 0u64;
+                for d in docs {
+                    while last.saturating_add(1) < d {
+                        last = index_of(target.new_text("pad"));
+                    }
+                    if last.saturating_add(1) == d {
+                        let _ = target.parse("<e xml:id=\"id1\"><f xml:id=\"id2\"/><g xml:id=\"id3\"><h xml:id=\"x\"/></g>t</e>");
+                        last = index_of(target.new_text("pad"));
+                        stats.inc("probe/c12_clone_from_target_had_a_document_in_the_same_slot");
+                    }
+                }
+                hashseam::reseed(hs0);
+            }
             target.clone_from(&w.xot);
+            if with_history {
+                // store-wide index: the overwritten store answers as the source does, for every document
+                let probes: Vec<String> =
+                    ["id1", "id2", "id3", "x"].iter().map(|s| s.to_string()).chain(w.xml_ids.iter().map(|(_, v)| v.clone())).collect();
+                'outer: for l in &w.model.roots {
+                    if let Some(h) = w.handles.get(l) {
+                        if w.xot.is_removed(*h) || !w.xot.is_document(*h) {
+                            continue;
+                        }
+                        for v in &probes {
+                            let ra = crate::driver::real_call(|| w.xot.xml_id_node(*h, v));
+                            let rb = crate::driver::real_call(|| target.xml_id_node(*h, v));
+                            stats.inc("probe/c12_xml_id_lookups_compared_after_clone_from");
+                            if let (Ok(ra), Ok(rb)) = (ra, rb) {
+                                if ra != rb {
+                                    fork_violation = Some(Violation::new(
+                                        "C12",
+                                        "fork-differs",
+                                        format!(
+                                            "after clone_from over a store that had documents and an xml:id index of its own, xml_id_node({:?}, {:?}) is {:?} in the source and {:?} in the copy",
+                                            l, v, ra, rb
+                                        ),
+                                    ));
+                                    break 'outer;
+                                }
+                            }
+                        }
+                    }
+                }
+            }
             fork.xot = target;
             stats.inc("fault/store_fork_made_with_clone_from");
         }
